@@ -4,7 +4,7 @@
 PKG=$(/venv/bin/python /verif/vlib/build.py plain) || exit 2
 cp $PKG/optree/_C.cpython-312-x86_64-linux-gnu.so /repo/optree/_C.cpython-312-x86_64-linux-gnu.so
 cd /repo
-OUT=$(mktemp -d /tmp/suite.XXXX)
+OUT=$(mktemp -d /verif/.build/suite.XXXX)
 for f in tests/test_*.py tests/integration; do
   n=$(echo $f | tr '/' '_')
   ( /venv/bin/python -m pytest -q -p no:cacheprovider --timeout=900 --continue-on-collection-errors $f > $OUT/$n.log 2>&1; echo "$? $f $(tail -1 $OUT/$n.log)" >> $OUT/summary ) &
